@@ -1,15 +1,19 @@
 /-
   Model driver for C16: replays the programs of `harness/src/bin/c16.rs` through the model of
-  the flatten / transform adapters (`Model/Path/Adapters.lean`) at `Float32`, with the curve
-  flattener instantiated by the C09 model (`Model/Geom/Flatten.lean`) — the tie is end to end.
+  the flatten / transform adapters (`Model/Path/Adapters.lean`) at `Float32`.  The curve
+  flattener is a parameter of the model: the harness hands over, as advice, what lyon_geom's
+  flatteners return for every curve a route flattens (lyon_geom's flattening itself is property
+  C09, modelled in `Model/Geom/Flatten.lean` and tied there); the model looks the curve up by
+  the bit patterns of its control points — so a wrong `from`, tolerance or space still shows.
 
-  CASE args: `n tol m11 m12 m21 m22 m31 m32 <prog>`,
-  prog = `B x y a*n | L x y a*n | Q cx cy x y a*n | C c1x c1y c2x c2y x y a*n | E 0/1`.
+  CASE args: `n tol m11 m12 m21 m22 m31 m32 <prog> <advice>`,
+  prog = `B x y a*n | L x y a*n | Q cx cy x y a*n | C c1x c1y c2x c2y x y a*n | E 0/1`,
+  advice = `| FQ/FC <ctrl points> k (fx fy tx ty t)*k` and `| IQ/IC <ctrl points> k (x y)*k`.
   Output: per family the routes listed in the harness' header, calls as `B/L/Q/C/E`, events as
   `b/l/q/c/e`.
 -/
 import LyonVerif.Drive.Common
-import LyonVerif.Model.Geom.Flatten
+import LyonVerif.Model.Geom.Basic
 import LyonVerif.Model.Path.Adapters
 
 namespace Lyon.Drive.C16
@@ -21,32 +25,37 @@ abbrev ACall := Call Pn (List F)
 
 instance : Inhabited F := ⟨Scalar.zero⟩
 
-def fuelMax : Nat := 200000
+/-- advice tables: control-point bit patterns ↦ what lyon_geom returned -/
+structure Advice where
+  cb : List (List String × List (FSeg Pn F))
+  it : List (List String × List Pn)
 
-/-- lyon_geom's callback flatteners at tolerance `tol` (a panic of `to_u32().unwrap()` would
-show as an empty block) -/
-def cbFlattener (tol : F) : Flattener Pn F where
-  quad a c b :=
-    ((Quad.forEachFlattenedWithT ⟨a, c, b⟩ tol).getD []).map fun s => ⟨s.a, s.b, s.t1⟩
-  cubic a c1 c2 b :=
-    ((Cubic.forEachFlattenedWithT ⟨a, c1, c2, b⟩ tol).getD []).map fun s => ⟨s.a, s.b, s.t1⟩
+def h (s : String) : F := Wire.ofHex s
+def pt (x y : String) : Pn := ⟨h x, h y⟩
 
-/-- lyon_geom's `Flattened` iterators at tolerance `tol` -/
-def itFlattener (tol : F) : IterFlattener Pn where
-  quad a c b := (QuadIter.new ⟨a, c, b⟩ tol).collect fuelMax
-  cubic a c1 c2 b :=
-    match CubicIter.new ⟨a, c1, c2, b⟩ tol with
-    | some it => it.collect fuelMax
-    | none => []
+def key (ps : List Pn) : List String := ps.flatMap fun p => [fx p.x, fx p.y]
+
+def lookup {β : Type} (t : List (List String × List β)) (k : List String) : List β :=
+  match t.find? (fun e => e.1 == k) with
+  | some e => e.2
+  | none => []
+
+/-- lyon_geom's callback flatteners, as reported by the harness for exactly this curve -/
+def cbFlattener (adv : Advice) : Flattener Pn F where
+  quad a c b := lookup adv.cb (key [a, c, b])
+  cubic a c1 c2 b := lookup adv.cb (key [a, c1, c2, b])
+
+/-- lyon_geom's `Flattened` iterators, likewise -/
+def itFlattener (adv : Advice) : IterFlattener Pn where
+  quad a c b := lookup adv.it (key [a, c, b])
+  cubic a c1 c2 b := lookup adv.it (key [a, c1, c2, b])
 
 structure Inp where
   n : Nat
   tol : F
   m : Xf F
   prog : List ACall
-
-def h (s : String) : F := Wire.ofHex s
-def pt (x y : String) : Pn := ⟨h x, h y⟩
+  adv : Advice
 
 def takeAttrs (n : Nat) (l : List String) : List F × List String := ((l.take n).map h, l.drop n)
 
@@ -60,11 +69,46 @@ partial def parseProg (n : Nat) : List String → List ACall
   | "E" :: c :: r => .end_ (c == "1") :: parseProg n r
   | _ => []
 
+partial def parseSegs : Nat → List String → List (FSeg Pn F) × List String
+  | 0, r => ([], r)
+  | k+1, ax :: ay :: bx :: by_ :: t :: r =>
+    let (l, r') := parseSegs k r
+    (⟨pt ax ay, pt bx by_, h t⟩ :: l, r')
+  | _, _ => ([], [])
+
+partial def parsePts : Nat → List String → List Pn × List String
+  | 0, r => ([], r)
+  | k+1, x :: y :: r => let (l, r') := parsePts k r; (pt x y :: l, r')
+  | _, _ => ([], [])
+
+/-- canonical key of the control points as they appear in the advice (re-printed, so that it
+is spelled exactly like `key`) -/
+def rekey (toks : List String) : List String := toks.map fun t => fx (h t)
+
+partial def parseAdvice (adv : Advice) : List String → Advice
+  | "|" :: "FQ" :: r =>
+    let (l, r') := parseSegs ((r.drop 6).headD "0").toNat! (r.drop 7)
+    parseAdvice { adv with cb := adv.cb ++ [(rekey (r.take 6), l)] } r'
+  | "|" :: "FC" :: r =>
+    let (l, r') := parseSegs ((r.drop 8).headD "0").toNat! (r.drop 9)
+    parseAdvice { adv with cb := adv.cb ++ [(rekey (r.take 8), l)] } r'
+  | "|" :: "IQ" :: r =>
+    let (l, r') := parsePts ((r.drop 6).headD "0").toNat! (r.drop 7)
+    parseAdvice { adv with it := adv.it ++ [(rekey (r.take 6), l)] } r'
+  | "|" :: "IC" :: r =>
+    let (l, r') := parsePts ((r.drop 8).headD "0").toNat! (r.drop 9)
+    parseAdvice { adv with it := adv.it ++ [(rekey (r.take 8), l)] } r'
+  | _ => adv
+
 def parse (v : Array String) : Inp :=
   let n := rdNat v 0
+  let toks := v.toList.drop 8
+  let progToks := toks.takeWhile (· != "|")
+  let advToks := toks.dropWhile (· != "|")
   { n := n, tol := rd v 1,
     m := ⟨rd v 2, rd v 3, rd v 4, rd v 5, rd v 6, rd v 7⟩,
-    prog := parseProg n (v.toList.drop 8) }
+    prog := parseProg n progToks,
+    adv := parseAdvice ⟨[], []⟩ advToks }
 
 /-! ### printing -/
 
@@ -104,33 +148,33 @@ def faevs (l : List (Event (AP Pn F))) : List String := l.flatMap faev
 def origin : Pn := ⟨Scalar.zero, Scalar.zero⟩
 
 def bf (i : Inp) : String :=
-  unwords (fcalls (flatBuilder (cbFlattener i.tol) origin i.n i.prog))
+  unwords (fcalls (flatBuilder (cbFlattener i.adv) origin i.n i.prog))
 
 def bt (i : Inp) : String :=
   unwords (fcalls (xfBuilder i.m.apply i.prog))
 
 def bn (i : Inp) : String :=
-  let F := cbFlattener i.tol
+  let F := cbFlattener i.adv
   unwords ("ft" :: fcalls (xfBuilder i.m.apply (flatBuilder F origin i.n i.prog))
     ++ "tf" :: fcalls (flatBuilder F origin i.n (xfBuilder i.m.apply i.prog)))
 
 def na (i : Inp) : String :=
-  let F := cbFlattener i.tol
+  let F := cbFlattener i.adv
   let p0 : List ACall := noAttrBuilder i.prog
   unwords ("f" :: fcalls (flatBuilder F origin 0 p0)
     ++ "t" :: fcalls (xfBuilder i.m.apply p0)
     ++ "ft" :: fcalls (xfBuilder i.m.apply (flatBuilder F origin 0 p0)))
 
 def pb (i : Inp) : String :=
-  let F := cbFlattener i.tol
+  let F := cbFlattener i.adv
   let p0 : List ACall := noAttrBuilder i.prog
   unwords ("f" :: fevs (specEvents (flatBuilder F origin 0 p0))
     ++ "fa" :: faevs (attrEvents (flatBuilder F origin i.n i.prog))
     ++ "ta" :: faevs (attrEvents (xfBuilder i.m.apply i.prog)))
 
 def it (i : Inp) : String :=
-  unwords ("f" :: fevs (flatIter (itFlattener i.tol) (specEvents i.prog))
-    ++ "a" :: faevs (flatAttrIter (cbFlattener i.tol) (attrEvents i.prog)))
+  unwords ("f" :: fevs (flatIter (itFlattener i.adv) (specEvents i.prog))
+    ++ "a" :: faevs (flatAttrIter (cbFlattener i.adv) (attrEvents i.prog)))
 
 /-- the stored route: `Path::builder_with_attributes(n)` storage (C14 model), `apply_transform`
 on it, read back with `iter_with_attributes` -/
@@ -147,7 +191,7 @@ def ix (i : Inp) : String :=
   unwords ("t" :: fevs (xfIter i.m.apply (specEvents i.prog)) ++ "s" :: storedXf i)
 
 def in_ (i : Inp) : String :=
-  let G := itFlattener i.tol
+  let G := itFlattener i.adv
   unwords ("tf" :: fevs (flatIter G (xfIter i.m.apply (specEvents i.prog)))
     ++ "ft" :: fevs (xfIter i.m.apply (flatIter G (specEvents i.prog))))
 
